@@ -167,8 +167,9 @@ func c11(r *rt.Run) {
 		}
 	})
 	c11MultiRow(r)
+	c11Helper(r)
 	r.Finish("programs Decl e(A,B) bound[t1,t2]. Decl p(A,B) bound[s1,s2]. <facts of e> <rule> over a type alphabet (11 quick / 17 thorough), 29 rules (copy, swap, positive and negated :match_prefix on a union of name-prefix types, constants, constructors, match predicates, accessors, arithmetic, recursion, let-transform) and fact sets drawn from the constants the declaration of e admits; " +
-		"a multi-row family (e declared with two bound rows, u/1 with a wide bound, 9 rule shapes incl. a variable bound earlier with a wider type and the 4th/5th distinct variable of a clause, every head row over 6 types and two-row heads); accepted-and-evaluated programs: every stored fact of e and p passes CheckTypeBounds; non-trivial = accepted programs that derive at least one p fact")
+		"an undeclared recursive helper whose column type shifts per round through a multi-row conversion relation, feeding a declared predicate (3 conversions x 6 helper shapes x 7 declared bounds x 3 uses); a multi-row family (e declared with two bound rows, u/1 with a wide bound, 9 rule shapes incl. a variable bound earlier with a wider type and the 4th/5th distinct variable of a clause, every head row over 6 types and two-row heads); accepted-and-evaluated programs: every stored fact of e and p passes CheckTypeBounds; non-trivial = accepted programs that derive at least one p fact")
 }
 
 // c11MultiRow: declarations with several bound rows. Every alternative row of a body predicate must
@@ -235,6 +236,47 @@ func c11MultiRow(r *rt.Run) {
 	})
 }
 
+// c11Helper: an undeclared, recursive helper predicate whose column type shifts with every round of its recursive
+// rule (through a conversion relation with several bound rows) feeds a declared predicate. The declared bound must
+// cover what any number of rounds can produce.
+func c11Helper(r *rt.Run) {
+	convs := []string{
+		"Decl conv(A, B) bound [/number, /string] bound [/string, /name].\nconv(1, \"s\").\nconv(\"s\", /a/x).\n",
+		"Decl conv(A, B) bound [/number, /string] bound [/string, /name] bound [/name, fn:List(/number)].\nconv(1, \"s\").\nconv(\"s\", /a/x).\nconv(/a/x, [1]).\n",
+		"Decl conv(A, B) bound [/number, /number] bound [/number, /string].\nconv(1, 2).\nconv(2, \"s\").\n",
+	}
+	helpers := [][]string{
+		{"value(X) :- seed(X).", "value(Y) :- value(X), conv(X, Y)."},
+		{"value(Y) :- value(X), conv(X, Y).", "value(X) :- seed(X)."},
+		{"value(X) :- seed(X).", "value(Y) :- other(X), conv(X, Y).", "other(X) :- value(X)."},
+		{"value(X) :- seed(X).", "other(Y) :- value(X), conv(X, Y).", "value(X) :- other(X)."},
+		{"value(X) :- seed(X).", "value(Y) :- conv(X, Y), value(X)."},
+		{"value(X) :- seed(X).", "value(Z) :- value(X), conv(X, Y), conv(Y, Z)."},
+	}
+	outs := []string{"/number", "/string", "/name", "/any", "fn:Union(/number, /string)", "fn:Union(/number, /string, /name)", "fn:Union(/string, /name)"}
+	uses := []string{"out(X) :- value(X).", "out(X) :- value(X), seed(_).", "out(Y) :- value(X), conv(X, Y)."}
+	type job struct {
+		conv, out, use string
+		helper         []string
+	}
+	var jobs []job
+	for _, c := range convs {
+		for _, h := range helpers {
+			for _, o := range outs {
+				for _, u := range uses {
+					jobs = append(jobs, job{c, o, u, h})
+				}
+			}
+		}
+	}
+	rt.ForRange(len(jobs), func(i int) {
+		j := jobs[i]
+		src := j.conv + "Decl seed(A) bound [/number].\nseed(1).\nDecl out(A) bound [" + j.out + "].\n" + strings.Join(j.helper, "\n") + "\n" + j.use + "\n"
+		r.Add("helper_programs", 1)
+		c11Program(r, src, nil)
+	})
+}
+
 func c11Accepts(src string) bool {
 	ok := false
 	rt.Try(func() {
@@ -292,7 +334,7 @@ func c11Program(r *rt.Run, src string, storeFacts []string) {
 	}
 	derived := 0
 	for _, a := range mg.Atoms(store) {
-		if a.Predicate.Symbol != "e" && a.Predicate.Symbol != "p" {
+		if a.Predicate.Symbol != "e" && a.Predicate.Symbol != "p" && a.Predicate.Symbol != "out" && a.Predicate.Symbol != "conv" && a.Predicate.Symbol != "seed" {
 			continue
 		}
 		if a.Predicate.Symbol == "p" {
